@@ -207,6 +207,14 @@ func (w *csWorld) apply(op string, a *csArgs) error {
 				w.extend(nil)
 			}
 		}
+	case "Flap":
+		removed := e.chain.Disconnect(a.D)
+		w.lastDisc = nil
+		back := make([]*mockchain.Block, 0, len(removed))
+		for i := len(removed) - 1; i >= 0; i-- {
+			back = append(back, removed[i])
+		}
+		e.chain.Reconnect(back)
 	case "DupDisconnect":
 		if w.lastDisc != nil {
 			e.chain.SendStaleDisconnect(w.lastDisc)
